@@ -229,6 +229,14 @@ func (r *refNode) suspect(node string, inc uint32, from string, now time.Time) {
 			rec.N++
 			r.enq(node, fmt.Sprintf("suspect %d", inc))
 			r.eff.Changed = true
+			// a confirmation shortens the timeout; if the shortened one has already elapsed the
+			// suspicion ends at once
+			if dl := rec.SuspFrom.Add(refSuspicionTimeout(rec.N, rec.K, rec.SuspMin, rec.SuspMax)); !now.Before(dl) {
+				rec.Timer = false
+				if rec.State == "suspect" {
+					r.dead(node, rec.Inc, r.Name, now)
+				}
+			}
 		}
 		return
 	}
@@ -770,14 +778,16 @@ func (w *world) canonKey() string {
 	var sb strings.Builder
 	for i := range s.Recs {
 		r := &s.Recs[i]
+		// age class of the record. For dead/left records the code consults it (reclaim, gossip to the
+		// dead, reaping); for alive/suspect ones it must NOT matter - which is exactly why the class
+		// is kept for them too: merging "alive for 1us" with "alive for longer than the reclaim time"
+		// would hide a handler that wrongly lets the age of a live member count.
 		age := "f"
-		if r.State == ml.StateDead || r.State == ml.StateLeft {
-			el := now.Sub(r.StateChange)
-			if el > w.o.Cfg.GossipToTheDeadTime {
-				age = "g"
-			} else if w.cfg.Reclaim > 0 && el > w.cfg.Reclaim {
-				age = "r"
-			}
+		el := now.Sub(r.StateChange)
+		if (r.State == ml.StateDead || r.State == ml.StateLeft) && el > w.o.Cfg.GossipToTheDeadTime {
+			age = "g"
+		} else if w.cfg.Reclaim > 0 && el > w.cfg.Reclaim && r.Name != w.o.Name {
+			age = "r"
 		}
 		fmt.Fprintf(&sb, "%s:%s:i%d:@%s:m%s:v%v:t%v:c%v:k%d:%s|", r.Name, stateName(r.State), r.Incarnation, hostPort(r.Addr, r.Port), r.Meta, r.Vsn, r.HasTimer, r.Confirmers, r.SuspK, age)
 	}
